@@ -105,7 +105,7 @@ def mapping_text(rng):
 
 # ------------------------------------------------------------------ rewrites
 
-BLANKS = [" ", "  ", "\t", " ", " ", " \t "]
+BLANKS = [" ", "  ", "\t", " ", " ", " \t ", "\x0c", "\x0b ", "\x1c", " \x1f", "\x1e\x1d", "\u00a0", "\u3000", "\x85"]
 
 
 def classify(lines):
@@ -118,9 +118,18 @@ def classify(lines):
     return out
 
 
+def _simple_case(c):
+    """Letters whose other case is one character that lower-cases to the same thing whatever
+    the context (not sharp s, not dotted capital I, not the sigmas)."""
+    if c.isascii():
+        return c.isalpha()
+    o = c.swapcase()
+    return (len(o) == 1 and o != c and o.swapcase() == c and len(c.lower()) == 1 and o.lower() == c.lower()
+            and c not in "\u03a3\u03c3\u03c2")
+
+
 def swapcase_some(rng, s):
-    # ASCII letters only: for other scripts upper/lower do not round-trip (sharp s, final sigma)
-    return "".join(c.swapcase() if c.isascii() and rng.random() < 0.5 else c for c in s)
+    return "".join(c.swapcase() if _simple_case(c) and rng.random() < 0.5 else c for c in s)
 
 
 def rewrite(rng, text, kind, keys_caseless):
@@ -143,7 +152,8 @@ def rewrite(rng, text, kind, keys_caseless):
         return join(lines), True, dep[i]
     if kind == "blank":
         i = rng.randrange(n + 1)
-        lines.insert(i, rng.choice(["", "   ", "# a comment", "\t#<not a section>", "#%define x y", " "]))
+        lines.insert(i, rng.choice(["", "   ", "# a comment", "\t#<not a section>", "#%define x y", " ", "\x0c",
+                                    "\x1c\x1f", "# page\x0cbreak", "# unc \\\\host\\share\\", "\u00a0# c"]))
         return join(lines), True, dep[min(i, n)]
     if kind == "case-header":
         idx = [i for i, e in enumerate(evs) if e[0] in ("open", "close")]
